@@ -47,6 +47,17 @@ def run_vec_check(prop, tier, replay=None):
                                {"states": max(1, mc["distinct"]), "transitions": max(1, mc["states"]), "traces_validated_against_impl": 0,
                                 "samples": [vec], "aborted": True}, time.time() - t0, 1, ["process abort of the code under test is a violation"])
                 return 1
+            pf = outp + ".panic"
+            pinfo = json.load(open(pf)) if os.path.exists(pf) else None
+            if pinfo and os.path.isabs(pinfo["file"]) and "/.cargo/" not in pinfo["file"] and "/rustc/" not in pinfo["file"] and "/verif/harness/" not in pinfo["file"]:
+                # the library itself panicked (location inside the crate under test) in a call the harness does not guard
+                rp = save_replay(prop, {"vector": {"what": w}, "tags": [prop + ":library-panicked"], "panic": pinfo})
+                print(f"VIOLATION property={prop} replay={rp}")
+                log(f"[{prop}]   the library panicked inside the vector harness ({w}): {pinfo['file']}:{pinfo['line']} {pinfo['msg'][:300]}")
+                write_evidence(prop, tier, "model_checking",
+                               {"states": max(1, mc["distinct"]), "transitions": max(1, mc["states"]), "traces_validated_against_impl": 0,
+                                "samples": [{"what": w}], "aborted": True}, time.time() - t0, 1, ["a panic raised inside the library is a violation"])
+                return 1
             if "on an `Err` value" in r.stderr or "on a `None` value" in r.stderr:
                 # a library call that never fails on the unchanged tree returned an error and the harness gave up: that is data
                 rp = save_replay(prop, {"vector": {"what": w}, "tags": [prop + ":library-call-failed"], "stderr": r.stderr[-1500:]})
